@@ -77,7 +77,15 @@ fn walk_node_enter(analyzer: &mut DeclAnalyzer, node: LuaAst) {
             stats::analyze_local_func_stat(analyzer, stat);
         }
         LuaAst::LuaRepeatStat(stat) => {
-            analyzer.create_scope(stat.get_range(), LuaScopeKind::Repeat);
+            // A Repeat scope lets the `until` condition see the body's locals by treating its first
+            // child scope as the body block. Without a body block (`repeat until f(function(a) end)`)
+            // the first child scope would be a closure of the condition and leak its parameters.
+            let kind = if stat.get_block().is_some() {
+                LuaScopeKind::Repeat
+            } else {
+                LuaScopeKind::Normal
+            };
+            analyzer.create_scope(stat.get_range(), kind);
         }
         LuaAst::LuaNameExpr(expr) => {
             exprs::analyze_name_expr(analyzer, expr);
